@@ -265,6 +265,9 @@ func runCheck(args []string) int {
 		timeout = 60
 	}
 	workDir := filepath.Join(verifDir, "work", *prop)
+	if d := os.Getenv("GOVC_WORK"); d != "" {
+		workDir = filepath.Join(d, *prop)
+	}
 	os.RemoveAll(workDir)
 	solveStart := time.Now()
 	discharge(sel, workDir, timeout, 16)
@@ -479,6 +482,9 @@ func isSweepName(n string) bool {
 
 func writeReplayFile(prop, obl, what, model string) string {
 	dir := filepath.Join(verifDir, "work", "replay")
+	if d := os.Getenv("GOVC_WORK"); d != "" {
+		dir = filepath.Join(d, "replay")
+	}
 	os.MkdirAll(dir, 0o755)
 	path := filepath.Join(dir, prop+"_"+safeFile(obl)+".txt")
 	var b strings.Builder
